@@ -640,14 +640,38 @@ def translate_paths():
     srcs_c.append(f)
     # --- who can reach the exit path: exit_data is called from on_data only; on_data is the cell handler of DataPayload only,
     #     so the re-dispatch `on_packet_from_circuit` (deliverOwn) reaches on_data exactly for a nested DataPayload
-    callers = set()
-    for fn in comm.body:
-        if isinstance(fn, ast.FunctionDef):
-            for n in ast.walk(fn):
-                if isinstance(n, ast.Attribute) and n.attr == "exit_data" and ast.unparse(n) == "self.exit_data":
-                    callers.add(fn.name)
-    if callers != {"on_data"}:
-        raise TranslatorError(f"{COMM}: self.exit_data is referenced from {sorted(callers)}, expected only on_data")
+    def callers_of(pred):
+        out_ = set()
+        for file, tree_ in ((COMM, ast.parse(cm_src)), ("hidden_services.py", ast.parse((REPO / "ipv8/messaging/anonymization/hidden_services.py").read_text()))):
+            for fn in ast.walk(tree_):
+                if isinstance(fn, (ast.FunctionDef, ast.AsyncFunctionDef)):
+                    for n in ast.walk(fn):
+                        if pred(n):
+                            out_.add(f"{file.rsplit('/', 1)[-1]}:{fn.name}")
+        return out_
+    callers = callers_of(lambda n: isinstance(n, ast.Attribute) and n.attr == "exit_data")
+    if callers != {"community.py:on_data", "community.py:exit_data"} and callers != {"community.py:on_data"}:
+        raise TranslatorError(f"exit_data is referenced from {sorted(callers)}, expected only TunnelCommunity.on_data")
+    # who opens an exit socket: `.enable()` on anything, in both files, only inside exit_data
+    enablers = callers_of(lambda n: isinstance(n, ast.Call) and isinstance(n.func, ast.Attribute) and n.func.attr == "enable")
+    if enablers != {"community.py:exit_data"}:
+        raise TranslatorError(f".enable() is called from {sorted(enablers)}, expected only TunnelCommunity.exit_data")
+    # who creates exit sockets: assignments into exit_sockets[...] only in join_circuit
+    makers = callers_of(lambda n: isinstance(n, ast.Assign) and any(
+        isinstance(t, ast.Subscript) and ast.unparse(t.value).endswith("exit_sockets") for t in n.targets))
+    if makers != {"community.py:join_circuit"}:
+        raise TranslatorError(f"exit_sockets[...] is assigned in {sorted(makers)}, expected only TunnelCommunity.join_circuit")
+    # who writes to the outside transports / tunnels outside data back: only TunnelExitSocket.sendto / datagram_received
+    es_tree = ast.parse(es_src)
+    senders = {fn.name for fn in ast.walk(es_tree) if isinstance(fn, (ast.FunctionDef, ast.AsyncFunctionDef)) for n in ast.walk(fn)
+               if isinstance(n, ast.Call) and isinstance(n.func, ast.Attribute) and n.func.attr == "sendto"
+               and not ast.unparse(n.func.value) == "self"}
+    if senders - {"sendto"}:
+        raise TranslatorError(f"{SRC}: a transport's sendto is called from {sorted(senders)}, expected only TunnelExitSocket.sendto")
+    tunnellers = {fn.name for fn in ast.walk(es_tree) if isinstance(fn, (ast.FunctionDef, ast.AsyncFunctionDef)) for n in ast.walk(fn)
+                  if isinstance(n, ast.Call) and ast.unparse(n.func) == "self.tunnel_data"}
+    if tunnellers != {"datagram_received"}:
+        raise TranslatorError(f"{SRC}: tunnel_data is called from {sorted(tunnellers)}, expected only datagram_received")
     regs = [ast.unparse(n) for n in ast.walk(comm) if isinstance(n, ast.Call) and ast.unparse(n.func) == "self.add_cell_handler"
             and "self.on_data" in [ast.unparse(a) for a in n.args]]
     other_refs = [n for fn in comm.body if isinstance(fn, ast.FunctionDef) for n in ast.walk(fn)
@@ -657,7 +681,7 @@ def translate_paths():
                               f"{len(other_refs)} references)")
     opfc = _method(comm, "on_packet_from_circuit", ["self", "source_address", "data", "circuit_id"], COMM)
     otxt = ast.unparse(opfc)
-    for need in ("msg_id = data[22]", "self.decode_map_private[msg_id]", "handler(source_address, data, circuit_id)"):
+    for need in ("data[22]", "self.decode_map_private[", "(source_address, data, circuit_id)"):
         if need not in otxt:
             raise TranslatorError(f"{COMM}:{opfc.lineno}: on_packet_from_circuit no longer dispatches by data[22] through decode_map_private")
     srcs_c.append(opfc)
@@ -674,20 +698,41 @@ def translate_paths():
         raise TranslatorError("payload.py: DataPayload.msg_id not found")
     # --- which message types may come back through an exit: add_cell_handler(<Payload>, <handler>, from_exit=True)
     ach = _method(comm, "add_cell_handler", ["self", "payload_cls", "handler", "from_exit"], COMM)
-    atxt = ast.unparse(ach)
-    if "if from_exit:\n        self.exit_msg_ids.add(payload_cls.msg_id)" not in atxt or atxt.count("exit_msg_ids") != 1 \
+    abody = [x for x in ach.body if not (isinstance(x, ast.Expr) and isinstance(x.value, ast.Constant))]
+    atxt = "\n".join(ast.unparse(x) for x in abody)
+    if "if from_exit:\n    self.exit_msg_ids.add(payload_cls.msg_id)" not in atxt or atxt.count("exit_msg_ids") != 1 \
             or ast.unparse(ach.args.defaults[-1]) != "False":
         raise TranslatorError(f"{COMM}:{ach.lineno}: add_cell_handler no longer fills exit_msg_ids exactly for from_exit=True (default False)")
-    writers = [ast.unparse(n) for fn in comm.body if isinstance(fn, ast.FunctionDef) and fn.name not in ("add_cell_handler",)
-               for n in ast.walk(fn) if isinstance(n, ast.Attribute) and n.attr == "exit_msg_ids"
-               and not isinstance(n.ctx, ast.Load)]
-    readers = [fn.name for fn in comm.body if isinstance(fn, ast.FunctionDef) for n in ast.walk(fn)
-               if isinstance(n, ast.Attribute) and n.attr == "exit_msg_ids"]
-    if sorted(readers) != ["__init__", "add_cell_handler", "on_data"] or writers != ["self.exit_msg_ids"]:
-        raise TranslatorError(f"{COMM}: exit_msg_ids is touched outside __init__/add_cell_handler/on_data ({readers}, {writers})")
+    HS = "ipv8/messaging/anonymization/hidden_services.py"
+    hs_tree = ast.parse((REPO / HS).read_text())
+    MUTATORS = ("add", "update", "discard", "remove", "clear", "pop", "difference_update", "intersection_update",
+                "symmetric_difference_update", "__ior__", "__iand__", "__isub__")
+
+    def scan_writes(file, tree_, attr, allowed):
+        """every write to / mutation / escape of `self.<attr>` must sit in one of the `allowed` functions"""
+        for fn in ast.walk(tree_):
+            if not isinstance(fn, (ast.FunctionDef, ast.AsyncFunctionDef)):
+                continue
+            parents = {}
+            for n in ast.walk(fn):
+                for ch in ast.iter_child_nodes(n):
+                    parents[ch] = n
+            for n in ast.walk(fn):
+                if isinstance(n, ast.Attribute) and n.attr == attr:
+                    par = parents.get(n)
+                    write = not isinstance(n.ctx, ast.Load) or isinstance(par, ast.AugAssign) \
+                        or (isinstance(par, ast.Attribute) and par.attr in MUTATORS) \
+                        or (isinstance(par, ast.Assign) and n is par.value) \
+                        or (isinstance(par, (ast.Call, ast.Return, ast.keyword)) and not (
+                            isinstance(par, ast.Call) and isinstance(par.func, ast.Name) and par.func.id in ("len", "sorted", "list", "set", "frozenset", "tuple")))
+                    if write and fn.name not in allowed:
+                        raise TranslatorError(f"{file}:{n.lineno}: `{attr}` is written / mutated / handed out in {fn.name} "
+                                              f"(only {sorted(allowed)} may)")
+    scan_writes(COMM, ast.parse(cm_src), "exit_msg_ids", {"__init__", "add_cell_handler"})
+    scan_writes(HS, hs_tree, "exit_msg_ids", set())
     declared = []
     HS = "ipv8/messaging/anonymization/hidden_services.py"
-    for file, tree_ in ((COMM, ast.parse(cm_src)), (HS, ast.parse((REPO / HS).read_text()))):
+    for file, tree_ in ((COMM, ast.parse(cm_src)), (HS, hs_tree)):
         for n in ast.walk(tree_):
             if isinstance(n, ast.Call) and ast.unparse(n.func) == "self.add_cell_handler":
                 fe = [k for k in n.keywords if k.arg == "from_exit"] + ([n.args[2]] if len(n.args) > 2 else [])
@@ -719,15 +764,42 @@ def translate_paths():
         if assigns.get(k) != v:
             raise TranslatorError(f"{COMM}:{jc.lineno}: join_circuit: `{k}` is assigned {assigns.get(k)}, expected exactly {v} "
                                   "(the new exit socket's hop must be a Peer at the address the CREATE came from)")
+    # the hop's Peer object must not escape: besides the request cache and the Hop it is handed to nobody (in particular not
+    # to the Network, whose Peer objects learn new addresses from every signed message of that key)
+    def walk_no_comp(node):
+        yield node
+        for ch in ast.iter_child_nodes(node):
+            if not isinstance(ch, (ast.ListComp, ast.DictComp, ast.SetComp, ast.GeneratorExp, ast.Lambda)):
+                yield from walk_no_comp(ch)
+    uses = []
+    for n in walk_no_comp(jc):
+        if isinstance(n, ast.Call):
+            for a in list(n.args) + [k.value for k in n.keywords]:
+                if isinstance(a, ast.Name) and a.id == "peer":
+                    uses.append(ast.unparse(n.func))
+    loads = sum(1 for n in walk_no_comp(jc) if isinstance(n, ast.Name) and n.id == "peer" and isinstance(n.ctx, ast.Load))
+    if sorted(uses) != ["CreatedRequestCache", "Hop"] or loads != 2:
+        raise TranslatorError(f"{COMM}:{jc.lineno}: join_circuit: the hop's Peer object is used by {sorted(uses)} ({loads} uses), expected "
+                              "exactly CreatedRequestCache(...) and Hop(...)")
     oc_ = [f for f in comm.body if isinstance(f, ast.AsyncFunctionDef) and f.name == "on_create"]
     if len(oc_) != 1 or "self.join_circuit(payload, source_address)" not in ast.unparse(oc_[0]):
         raise TranslatorError(f"{COMM}: on_create no longer calls self.join_circuit(payload, source_address)")
+    for n in ast.walk(oc_[0]):
+        if isinstance(n, ast.Attribute) and n.attr in ("exit_sockets",) and not isinstance(n.ctx, ast.Load):
+            raise TranslatorError(f"{COMM}:{n.lineno}: on_create writes exit_sockets")
     init = _method(sock, "__init__", ["self", "circuit_id", "hop", "overlay"], SRC)
-    itxt = ast.unparse(init)
-    for need in ("self.hop = hop", "self.enabled = False", "self.transport_ipv4: DatagramTransport | None = None",
-                 "self.transport_ipv6: DatagramTransport | None = None"):
-        if need not in itxt:
-            raise TranslatorError(f"{SRC}:{init.lineno}: TunnelExitSocket.__init__ lacks `{need}`")
+    inits = {}
+    for n in ast.walk(init):
+        tg, val = [], None
+        if isinstance(n, ast.Assign):
+            tg, val = n.targets, n.value
+        elif isinstance(n, ast.AnnAssign) and n.value is not None:
+            tg, val = [n.target], n.value
+        for t in tg:
+            inits[ast.unparse(t)] = ast.unparse(val)
+    for k, v in (("self.hop", "hop"), ("self.enabled", "False"), ("self.transport_ipv4", "None"), ("self.transport_ipv6", "None")):
+        if inits.get(k) != v:
+            raise TranslatorError(f"{SRC}:{init.lineno}: TunnelExitSocket.__init__ sets {k} = {inits.get(k)}, expected {v}")
     tun = ast.parse((REPO / TUNNEL).read_text())
     hop_cls = find_class(tun, "Hop")
     addr = [f for f in hop_cls.body if isinstance(f, ast.FunctionDef) and f.name == "address"]
